@@ -18,7 +18,19 @@
 //   - a schema that ends with an inline annotation / an enum that ends with a `//` comment needs a line break
 //     in sep (otherwise T is part of the annotation);
 //   - never a foreign byte directly after a number or a type shortcut in schema mode (`1x` is one token
-//     there), never a byte of [0-9.eE] directly after a number in JSON mode.
+//     there), never a byte of [0-9.eE] directly after a number in JSON mode;
+//   - a schema that ends with a `#` line comment needs a line break in sep (otherwise T is comment text; and a
+//     trailing user comment that runs into the END OF INPUT is not counted by Len at all: `{} # c` -> 2 but
+//     `{} # c` + LF -> 6 — recorded as an observation, nothing demanded); one that ends with a `### … ###` block
+//     needs a line break in sep or a non-empty T for the same reason.
+//
+// History independence of Len (every case): the same text is also measured on ONE object after a short random
+// history of loading calls (schema: Check / AddType / GetAST / Validate / Example / UsedUserTypes; JSON document:
+// Check / NextLexeme; enum: Check / Values / GetAST; regex: Pattern / Check / Example / GetAST) and must give
+// what a fresh object gives — number or error. Schema texts are also generated with leading layout (blanks, line
+// breaks, user comments before the root value) and with endings that carry no content: empty inline annotation
+// `//`, empty multi-line annotation `/**/`, empty `#` comment, empty block comment, each followed by LF / CRLF
+// runs and foreign text.
 //
 // Malformed starts: a proper prefix of S that contains the first byte of the root value but not its last
 // (cut inside a string, inside an object / array, after a ':', inside an annotation of an unclosed root)
@@ -184,10 +196,17 @@ func pickTail(r *rand.Rand, kind, end string) (sep, t string) {
 
 // tailOK: the side condition "T (after sep) cannot continue a text of this kind that ends as `end`".
 func tailOK(kind, end, sep, t string) bool {
+	lineBreak := strings.ContainsAny(sep, "\r\n")
+	if end == "line-comment" && !lineBreak {
+		return false // T would be comment text; at end of input the comment is not counted (observation)
+	}
+	if end == "block-comment" && !lineBreak && t == "" {
+		return false // a trailing block comment that runs into the end of input is not counted (observation)
+	}
 	if t == "" {
 		return true
 	}
-	if end == "inline-annotation" && !strings.ContainsAny(sep, "\r\n") {
+	if end == "inline-annotation" && !lineBreak {
 		return false
 	}
 	c := t[0]
@@ -219,10 +238,21 @@ var smallTexts = map[string][][2]string{
 		{"false", "word"}, {"null", "word"}, {"@t", "shortcut"}, {"@t | @u", "shortcut"}, {"@t|@u", "shortcut"}, {"{}", "bracket"}, {"[]", "bracket"},
 		{"[1, 2]", "bracket"}, {"{\n  \"a\": @t\n}", "bracket"}, {`"abc" // {minLength: 1}`, "inline-annotation"}, {"1 // note", "inline-annotation"},
 		{"@t // {nullable: true}", "inline-annotation"}, {"1 /* {min: 0} */", "multiline-annotation"}, {"@t /* note */", "multiline-annotation"},
-		{"# c\n\"abc\"", "quote"}, {"\n@u", "shortcut"}},
+		{"# c\n\"abc\"", "quote"}, {"\n@u", "shortcut"},
+		// content-less annotations / comments of every kind at the end (and inside)
+		{"{} //", "inline-annotation"}, {"[] //", "inline-annotation"}, {`"abc" //`, "inline-annotation"}, {"1 //", "inline-annotation"},
+		{"true\t//", "inline-annotation"}, {"@t //", "inline-annotation"}, {"@t | @u //", "inline-annotation"}, {"{}//", "inline-annotation"},
+		{"{} /**/", "multiline-annotation"}, {`"abc" /* */`, "multiline-annotation"}, {"1 /*\n*/", "multiline-annotation"}, {"@t /*\r\n\t*/", "multiline-annotation"},
+		{"{} #", "line-comment"}, {`"abc" #`, "line-comment"}, {"1 #", "line-comment"}, {"@t #", "line-comment"}, {"[1, 2]#", "line-comment"},
+		{"{} #####", "block-comment"}, {`"abc" ### ###`, "block-comment"}, {"1 ######", "line-comment"}, {"@t ###\n###", "block-comment"},
+		{"{} # c", "line-comment"}, {"1 ### b ###", "block-comment"},
+		{"{\n  \"a\": 1 //\n}", "bracket"}, {"[\n  1, //\n  2 //\n]", "bracket"}, {"{ //\n}", "bracket"}, {"[ //\n  1 #\n]", "bracket"},
+		{"  {}", "bracket"}, {"\r\n\t\"abc\"", "quote"}, {"#\n1", "number"}, {"### ###\n  true", "word"}},
 	"json": {{"{}", "bracket"}, {"[1]", "bracket"}, {`"ab"`, "quote"}, {`""`, "quote"}, {"1", "number"}, {"-2.5e3", "number"}, {"0", "number"}, {"1.50", "number"},
-		{"true", "word"}, {"false", "word"}, {"null", "word"}, {`{"a": [1, "x"]}`, "bracket"}, {" 7", "number"}},
-	"enum": {{"[]", "bracket"}, {`[1, "a"]`, "bracket"}, {"[\n  1, // one\n  2\n]", "bracket"}, {"[1] /* c */", "multiline-annotation"}, {"[1] // c", "inline-annotation"}},
+		{"true", "word"}, {"false", "word"}, {"null", "word"}, {`{"a": [1, "x"]}`, "bracket"}, {" 7", "number"}, {"\n\n{}", "bracket"}, {"\t\"ab\"", "quote"}},
+	"enum": {{"[]", "bracket"}, {`[1, "a"]`, "bracket"}, {"[\n  1, // one\n  2\n]", "bracket"}, {"[1] /* c */", "multiline-annotation"}, {"[1] // c", "inline-annotation"},
+		{"[1] /**/", "multiline-annotation"}, {"[] /* */", "multiline-annotation"}, {"[1] //", "inline-annotation"}, {"[] //", "inline-annotation"},
+		{"\n [1]", "bracket"}, {"  []", "bracket"}},
 }
 
 var smallTypes = c13.SchemaText{Types: map[string]string{"t": "1", "u": `"x"`}}
@@ -256,8 +286,15 @@ func (x *runner) shortTails(r *rand.Rand) {
 			}
 			if !accepted {
 				rep.Stat("short_" + kind + "_small_text_not_accepted")
+				rep.AddDiff(vh.Diff{Component: "C14-" + kind, Input: fmt.Sprintf("S=%q (small text, ends with %s)", s, end), Impl: "not accepted by Check", Model: "accepted"})
 				continue
 			}
+			x.types = smallTypes
+			x.class = ""
+			if kind == "enum" && emptyEnumComment(s) {
+				x.class = classEnumEmptyComment
+			}
+			x.histOnly("C14-"+kind, kind, s, "")
 			try := func(sep, t string) {
 				if !tailOK(kind, end, sep, t) {
 					return
@@ -284,6 +321,7 @@ func (x *runner) shortTails(r *rand.Rand) {
 					}
 				}
 			}
+			x.class = ""
 		}
 	}
 }
@@ -652,8 +690,247 @@ func tClass(t string) string {
 	return "other"
 }
 
+// ---------------------------------------------------------------------------------------------------------
+// leading layout and content-less endings
+
+var leads = []string{" ", "\n", "\r\n", "  \n  ", "\t", "\n\n    ", "# c\n", "#\n", "### b ###\n", " \r\n# c\r\n  ", "#####\t", "######\n"}
+
+type ending struct{ name, text, end string }
+
+// schemaEndings: what may follow the last token of a schema on its line and still belong to it, with NO content
+// (and, for comparison, with some): inline annotation, multi-line annotation, line comment, block comment.
+var schemaEndings = []ending{
+	{"inline-empty", " //", "inline-annotation"}, {"inline-empty", "//", "inline-annotation"}, {"inline-empty", "\t //", "inline-annotation"},
+	{"multi-empty", " /**/", "multiline-annotation"}, {"multi-empty", "/* */", "multiline-annotation"}, {"multi-empty", " /*\n*/", "multiline-annotation"},
+	{"multi-empty", " /* \r\n\t*/", "multiline-annotation"},
+	{"line-comment-empty", " #", "line-comment"}, {"line-comment-empty", "#", "line-comment"},
+	{"block-comment-empty", " #####", "block-comment"}, {"block-comment-empty", " ### ###", "block-comment"}, {"block-then-line-comment-empty", "######", "line-comment"},
+	{"block-comment-empty", " ###\n###", "block-comment"},
+	{"line-comment", " # c", "line-comment"}, {"block-comment", " ### b\n c ###", "block-comment"}, {"inline-note", " // n", "inline-annotation"},
+}
+
+var enumEndings = []ending{
+	{"inline-empty", " //", "inline-annotation"}, {"inline-empty", "//", "inline-annotation"}, {"multi-empty", " /**/", "multiline-annotation"},
+	{"multi-empty", "/* */", "multiline-annotation"}, {"multi-empty", " /*\n*/", "multiline-annotation"},
+}
+
+var lineBreakSeps = []string{"\n", "\r\n", "\n\n", "\r\n\r\n", " \n", "\t\r\n", "\n  ", "\r\n\r\n  \t", "\r", " \r\n \n", "\n\n\n\n", "  \r\n"}
+
+// pickLineBreakTail: LF / CRLF runs (3 of 4) or any separator, then foreign text (6 of 7) or nothing, under the
+// side condition.
+func pickLineBreakTail(r *rand.Rand, kind, end string) (sep, t string) {
+	for {
+		if r.Intn(4) != 0 {
+			sep = lineBreakSeps[r.Intn(len(lineBreakSeps))]
+		} else {
+			sep = seps[r.Intn(len(seps))]
+		}
+		t = ""
+		if r.Intn(7) != 0 {
+			t = genT(r)
+		}
+		if tailOK(kind, end, sep, t) {
+			return
+		}
+	}
+}
+
+// variants of one accepted generated schema: leading layout before it, a content-less annotation / comment
+// behind it (where the scanner allows one: a variant that Check refuses is counted and dropped — e.g. an
+// annotation behind a non-empty array on the line of its `]`).
+func (x *runner) variants(r *rand.Rand, st c13.SchemaText, base string) {
+	rep := x.rep
+	x.types = st
+	if r.Intn(2) == 0 {
+		lead := leads[r.Intn(len(leads))]
+		s := lead + st.Root
+		if got := schemaCheckAST(st, s); got != base {
+			rep.AddDiff(vh.Diff{Component: "C14-schema", Input: fmt.Sprintf("S=%q;%s", s, showTypes(st)), Impl: "with leading layout: " + got, Model: base})
+			return
+		}
+		rep.Stat("schema_with_leading_layout")
+		alone := lenOf("schema", s)
+		if alone.err != "" || alone.n != len(s) {
+			rep.AddDiff(vh.Diff{Component: "C14-schema", Input: fmt.Sprintf("S=%q alone;%s", s, showTypes(st)), Impl: "Len(S) = " + alone.String(), Model: fmt.Sprintf("LEN %d = len(S)", len(s))})
+		}
+		x.history("C14-schema", "schema", s, alone, ";"+showTypes(st))
+		sep, t := pickTail(r, "schema", st.End)
+		x.triple("C14-schema", "schema", s, st.End, sep, t, ";"+showTypes(st))
+	}
+	if st.End == "inline-annotation" || st.End == "multiline-annotation" {
+		return // there is an annotation behind the last token already
+	}
+	for k := 0; k < 2; k++ {
+		en := schemaEndings[r.Intn(len(schemaEndings))]
+		s := st.Root + en.text
+		got := schemaCheckAST(st, s)
+		if !strings.HasPrefix(got, "OK ") {
+			rep.Stat("schema_ending_" + en.name + "_not_accepted_dropped")
+			continue
+		}
+		rep.Stat("schema_ending_" + en.name)
+		x.histOnly("C14-schema", "schema", s, ";"+showTypes(st))
+		sep, t := pickLineBreakTail(r, "schema", en.end)
+		if x.triple("C14-schema", "schema", s, en.end, sep, t, ";"+showTypes(st)) {
+			if again := schemaCheckAST(st, (s + sep + t)[:len(s)]); again != got {
+				rep.AddDiff(vh.Diff{Component: "C14-schema", Input: fmt.Sprintf("S=%q sep=%q T=%q;%s", s, sep, t, showTypes(st)), Impl: "Check/AST of prefix: " + again, Model: got})
+			}
+		}
+	}
+}
+
 type runner struct {
-	rep *vh.Report
+	rep   *vh.Report
+	hr    *rand.Rand     // PRNG of the call histories (apart from the case stream)
+	types c13.SchemaText // user types of the schema under test (for AddType in histories)
+	class string         // known-finding class of the cases being generated ("" = none)
+}
+
+// classEnumEmptyComment: an EMPTY `//` comment in an enum rule swallows the following line (the enum scanner skips
+// line breaks directly behind `//`), so Len / the comment text run on into foreign text. Recognised structurally:
+// the enum text ends with `//` (blanks aside).
+const classEnumEmptyComment = "K-C14-enum-emptycomment"
+
+func emptyEnumComment(s string) bool { return strings.HasSuffix(strings.TrimRight(s, " \t"), "//") }
+
+// ---------------------------------------------------------------------------------------------------------
+// Len after a call history on the same object
+
+var histOps = map[string][]string{
+	"schema": {"Check", "AddType", "GetAST", "Validate", "Example", "UsedUserTypes"},
+	"json":   {"Check", "NextLexeme", "NextLexeme3", "Drain"},
+	"enum":   {"Check", "Values", "GetAST"},
+	"regex":  {"Pattern", "Check", "Example", "GetAST"},
+}
+
+// lenAfterHistory builds ONE object for the text, performs a short random history of loading calls (results
+// ignored), then asks Len. Returns what Len said and the history.
+func (x *runner) lenAfterHistory(kind, text string) (lenRes, string) {
+	r := x.hr
+	var ops []string
+	if kind == "schema" && r.Intn(2) == 0 {
+		ops = append(ops, "AddTypes") // every user type first: the loading calls behind it succeed for accepted S
+	}
+	for n := 1 + r.Intn(3); n > 0; n-- {
+		ops = append(ops, histOps[kind][r.Intn(len(histOps[kind]))])
+	}
+	res := guard(func() lenRes {
+		var n uint
+		var err error
+		switch kind {
+		case "schema":
+			s := jschema.New("s", text)
+			added := map[string]bool{}
+			addNext := func(all bool) {
+				for _, nm := range []string{"t", "u"} {
+					if txt, ok := x.types.Types[nm]; ok && !added[nm] {
+						added[nm] = true
+						_ = s.AddType("@"+nm, jschema.New("@"+nm, txt))
+						if !all {
+							return
+						}
+					}
+				}
+				if !all {
+					_ = s.AddType("@zz", jschema.New("@zz", "1"))
+				}
+			}
+			for _, op := range ops {
+				switch op {
+				case "AddTypes":
+					addNext(true)
+				case "AddType":
+					addNext(false)
+				case "Check":
+					_ = s.Check()
+				case "GetAST":
+					_, _ = s.GetAST()
+				case "Validate":
+					_ = s.Validate(jdoc.New("d", "1"))
+				case "Example":
+					_, _ = s.Example()
+				case "UsedUserTypes":
+					_, _ = s.UsedUserTypes()
+				}
+			}
+			n, err = s.Len()
+		case "json":
+			d := jdoc.New("d", text, jdoc.AllowTrailingNonSpaceCharacters())
+			for _, op := range ops {
+				k := 0
+				switch op {
+				case "Check":
+					_ = d.Check()
+				case "NextLexeme":
+					k = 1
+				case "NextLexeme3":
+					k = 3
+				case "Drain":
+					k = 1 << 20
+				}
+				for ; k > 0; k-- {
+					if _, e := d.NextLexeme(); e != nil {
+						break
+					}
+				}
+			}
+			n, err = d.Len()
+		case "enum":
+			e := enum.New("e", text)
+			for _, op := range ops {
+				switch op {
+				case "Check":
+					_ = e.Check()
+				case "Values":
+					_, _ = e.Values()
+				case "GetAST":
+					_, _ = e.GetAST()
+				}
+			}
+			n, err = e.Len()
+		case "regex":
+			s := regex.New("r", text)
+			for _, op := range ops {
+				switch op {
+				case "Pattern":
+					_, _ = s.Pattern()
+				case "Check":
+					_ = s.Check()
+				case "Example":
+					_, _ = s.Example()
+				case "GetAST":
+					_, _ = s.GetAST()
+				}
+			}
+			n, err = s.Len()
+		}
+		if err != nil {
+			return lenRes{err: perr(err)}
+		}
+		return lenRes{n: int(n)}
+	})
+	return res, strings.Join(ops, ", ")
+}
+
+// history demands: Len of the text after a call history on the same object = Len on a fresh object.
+func (x *runner) history(comp, kind, text string, fresh lenRes, extraInput string) {
+	hist, ops := x.lenAfterHistory(kind, text)
+	x.rep.Stat(kind + "_history_checked")
+	if fresh.err == "" {
+		x.rep.Stat(kind + "_history_on_text_with_Len_ok")
+	}
+	if hist != fresh {
+		x.rep.AddDiff(vh.Diff{Component: comp + "-history",
+			Input: fmt.Sprintf("%s text %q; one object: %s, then Len()%s", kind, text, ops, extraInput),
+			Impl:  "Len after the history = " + hist.String(),
+			Model: "Len on a fresh object = " + fresh.String()})
+	}
+}
+
+// histOnly: the text alone, nothing demanded about the number (a text that may end with a user comment).
+func (x *runner) histOnly(comp, kind, text, extraInput string) {
+	x.rep.Case("H\x00"+kind+"\x00"+text, strings.TrimLeft(text, " \t\r\n") != text || strings.Contains(text, "#"))
+	x.history(comp, kind, text, lenOf(kind, text), extraInput)
 }
 
 // triple checks Len(S+sep+T) = len(S) and returns whether it held.
@@ -666,20 +943,22 @@ func (x *runner) triple(comp, kind, s, end, sep, t, extraInput string) bool {
 	rep.Stat(kind + "_end_" + end)
 	rep.Stat(kind + "_len_" + lenBucket(len(s)))
 	got := lenOf(kind, whole)
+	x.history(comp, kind, whole, got, extraInput)
 	if got.err != "" || got.n != len(s) {
 		rep.AddDiff(vh.Diff{Component: comp,
 			Input: fmt.Sprintf("S=%q sep=%q T=%q (S ends with %s)%s", s, sep, t, end, extraInput),
 			Impl:  "Len(S+sep+T) = " + got.String(),
-			Model: fmt.Sprintf("LEN %d = len(S)", len(s))})
+			Model: fmt.Sprintf("LEN %d = len(S)", len(s)), Class: x.class})
 		return false
 	}
 	return true
 }
 
 func Run(args []string) {
-	rep := vh.NewReport(command, "accepted texts S (generated schemas in random spellings incl. annotations, user comments, shortcuts; generated JSON documents with random layout; enum rules with // and /* */ comments; regex types /P/) x separators (none, spaces, tabs, LF/CRLF runs, mixes) x trailing texts T (directive lines and random strings over a directive-like alphabet) filtered by the side condition 'T cannot continue S'; demanded Len(S+sep+T)=len(S), prefix passes Check with the same AST / event list / Values / Pattern; malformed starts (proper prefix cut after the first and before the last byte of the root value: random cut, after ':', inside a string) must give an error; texts without any value (empty, blanks, only comments) are evaluated and counted, nothing is demanded about them. nontrivial = T is not empty (triples) / the prefix is not empty (malformed)")
-	x := &runner{rep: rep}
+	rep := vh.NewReport(command, "accepted texts S (generated schemas in random spellings incl. annotations, user comments, shortcuts; generated JSON documents with random layout; enum rules with // and /* */ comments; regex types /P/) x separators (none, spaces, tabs, LF/CRLF runs, mixes) x trailing texts T (directive lines and random strings over a directive-like alphabet) filtered by the side condition 'T cannot continue S'; demanded Len(S+sep+T)=len(S), prefix passes Check with the same AST / event list / Values / Pattern; malformed starts (proper prefix cut after the first and before the last byte of the root value: random cut, after ':', inside a string) must give an error; texts without any value (empty, blanks, only comments) are evaluated and counted, nothing is demanded about them; every text is also measured on one object after a short random history of loading calls and must give what a fresh object gives; schema texts also with leading layout and with content-less annotations / comments at the end followed by LF / CRLF runs and foreign text. nontrivial = T is not empty (triples) / the prefix is not empty (malformed)")
+	x := &runner{rep: rep, hr: vh.NewRand(salt + 1)}
 	r := vh.NewRand(salt)
+	r2 := vh.NewRand(salt + 2) // leading layout and content-less endings (apart from the main case stream)
 	nSchema, nJSON, nEnum, nRegex, nMal := vh.Pick(1400, 40000), vh.Pick(1400, 60000), vh.Pick(1400, 60000), vh.Pick(700, 20000), vh.Pick(2400, 60000)
 
 	// ---- schemas: 3 tails per accepted S
@@ -701,10 +980,12 @@ func Run(args []string) {
 			rep.Stat("schema_spelling_" + rw)
 		}
 		kept = append(kept, st)
+		x.types = st
 		alone := lenOf("schema", s)
 		if alone.err != "" || alone.n != len(s) {
 			rep.AddDiff(vh.Diff{Component: "C14-schema", Input: fmt.Sprintf("S=%q alone;%s", s, showTypes(st)), Impl: "Len(S) = " + alone.String(), Model: fmt.Sprintf("LEN %d = len(S)", len(s))})
 		}
+		x.history("C14-schema", "schema", s, alone, ";"+showTypes(st))
 		for k := 0; k < 3; k++ {
 			sep, t := pickTail(r, "schema", st.End)
 			if x.triple("C14-schema", "schema", s, st.End, sep, t, ";"+showTypes(st)) {
@@ -716,6 +997,7 @@ func Run(args []string) {
 				}
 			}
 		}
+		x.variants(r2, st, base)
 	}
 
 	x.shortTails(r)
@@ -784,6 +1066,31 @@ func Run(args []string) {
 					rep.AddDiff(vh.Diff{Component: "C14-enum", Input: fmt.Sprintf("S=%q sep=%q T=%q", s, sep, t), Impl: again, Model: base})
 				}
 			}
+		}
+	}
+
+	// ---- enum rules that end with a content-less comment
+	for i := 0; i < len(keptEnums) && i < vh.Pick(300, 6000); i++ {
+		base := keptEnums[i]
+		for _, en := range enumEndings {
+			s := base + en.text
+			vals := enumValues(s)
+			if !strings.HasPrefix(vals, "VALUES") {
+				rep.AddDiff(vh.Diff{Component: "C14-enum", Input: fmt.Sprintf("%q", s), Impl: "enum with a content-less comment at the end not accepted: " + vals, Model: "accepted"})
+				continue
+			}
+			rep.Stat("enum_ending_" + en.name)
+			if emptyEnumComment(s) {
+				x.class = classEnumEmptyComment
+			}
+			x.histOnly("C14-enum", "enum", s, "")
+			sep, t := pickLineBreakTail(r2, "enum", en.end)
+			if x.triple("C14-enum", "enum", s, en.end, sep, t, "") {
+				if again := enumValues((s + sep + t)[:len(s)]); again != vals {
+					rep.AddDiff(vh.Diff{Component: "C14-enum", Input: fmt.Sprintf("S=%q sep=%q T=%q", s, sep, t), Impl: again, Model: vals, Class: x.class})
+				}
+			}
+			x.class = ""
 		}
 	}
 
